@@ -364,6 +364,16 @@ func genC14(c *Ctx) {
 			}
 		}
 	}
+	// the four functions that cut a text, on text whose characters take more than one byte, with counts from nothing to past the number of
+	// bytes: accepted (String/Single), and the evaluation returns a text
+	for _, txt := range []string{"\u00e9", "h\u00e9\u00e9", "\u65e5\u672c\u8a9e", "Zo\u00eb", "a\U0001F600b"} {
+		rc := c14Recv{T: "String", IO: "Single", ty: &CTy{T: "string"}, data: tvStr(txt)}
+		for _, fn := range []string{"Left", "Right", "TrimLeft", "TrimRight"} {
+			for n := 0; n <= len(txt)+1; n++ {
+				run(rc, []c14Call{mkCall(fn, []string{fmt.Sprint(n)})}, "single/conformant/multi-byte-text", true)
+			}
+		}
+	}
 	// an unknown function name parses (IsInvalid) and must be rejected
 	for _, rc := range recvs {
 		run(rc, []c14Call{{N: "NoSuchFunction", K: 0, q: "NoSuchFunction()"}}, "single/unknown", false)
